@@ -20,7 +20,9 @@ META = {
     'level_note': 'Acks are observed after the step has quiesced (the commit loop and NATS delivery are asynchronous); ISR '
                   'changes only happen as separate harness steps, so the ISR at observation equals the ISR at emission. '
                   'Encryption-failure nacks are not driven (no failing codec available); too-large nacks are. '
-                  'Batches of one message (BatchMaxMessages=1).',
+                  'Batches of one or two messages. The minimum ISR reaches the partition through the server setting, a '
+                  'hand-built stream override or the override as the API translates a CreateStream request (incl. a '
+                  'minimum above the replication factor on the RF=1 path).',
     'design_ref': 'DESIGN.md section 6/C04',
 }
 
